@@ -322,6 +322,9 @@ def run_arch(ck, arch, prop):
         plain = "@org $100\n %s\n" % f
         spelt = '@org $100\n@parse @string { %s "%s" }\n' % (mn, rest)
         extra += [plain, spelt]; emeta.append(("str", f))
+        # (c) the instruction between two spaces whose fill value is only known at link time: the fills stop at its bytes
+        filled = "@org $fd\n@ds 3, lat9\n %s\n@ds 2, lat9\n@defn lat9, $e9\n" % f
+        extra += [plain, filled]; emeta.append(("fill", f))
     eres = [AsmResult(r) for r in run_cases(harness, [asm_case(arch, text=t) for t in extra])]
     ck.evaluations += len(extra)
     for j, (kind, f) in enumerate(emeta):
@@ -333,6 +336,12 @@ def run_arch(ck, arch, prop):
                 ck.violation("%s: `%s` with its operand defined later, placed behind 64 KiB of image: %s (first difference at image offset %s), in a small image %s" % (
                     arch, f, (b.canon()[:40] + "..." if b.ok else b.canon()), k, a.canon()),
                     {"mode": "asm", "arch": arch, "source": extra[2 * j + 1], "harness_case": asm_case(arch, text=extra[2 * j + 1]), "expected": "the banks unchanged, then " + a.canon()})
+                break
+        elif kind == "fill":
+            want = ("OK " + "e9" * 3 + a.bytes.hex() + "e9" * 2) if a.ok else a.canon()
+            if b.canon() != want:
+                ck.violation("%s: `%s` between two spaces filled at link time assembles to %s, alone to %s" % (arch, f, b.canon(), a.canon()),
+                             {"mode": "asm", "arch": arch, "source": extra[2 * j + 1], "harness_case": asm_case(arch, text=extra[2 * j + 1]), "expected": want})
                 break
         elif a.canon() != b.canon():
             ck.violation("%s: `%s` assembles to %s, the same with the mnemonic written back by @string and parsed again to %s" % (arch, f, a.canon(), b.canon()),
